@@ -96,7 +96,10 @@ pub fn gen_full(r: &mut Rng, o: &FullOpts) -> PDB {
         if r.chance(2, 3) { pdb.identifier = Some(r.pick(&["1ABC", "9XYZ", "4HHB"]).to_string()); }
         for _ in 0..r.below(3) { let _ = pdb.add_remark(*r.pick(&[1usize, 2, 3, 350, 465, 999]), r.pick(&["RESOLUTION. 1.50 ANGSTROMS.", "AUTHOR X", "THIS ENTRY"]).to_string()); }
         if r.chance(1, 2) {
-            pdb.unit_cell = Some(UnitCell::new(r.range(1000, 99_999) as f64 / 1e3 * 1.0, r.range(1000, 99_999) as f64 / 1e3, r.range(1000, 99_999) as f64 / 1e3, 90.0, r.range(6000, 12_000) as f64 / 100.0, 90.0));
+            // edges from 1 to 1000 Å (every edge on its own: an edge is not an angle)
+            let edge = |r: &mut Rng| if r.chance(1, 3) { r.range(100_000, 999_999) as f64 / 1e3 } else { r.range(1000, 99_999) as f64 / 1e3 };
+            let (ea, eb, ec) = (edge(r), edge(r), edge(r));
+            pdb.unit_cell = Some(UnitCell::new(ea, eb, ec, 90.0, r.range(6000, 12_000) as f64 / 100.0, 90.0));
             if r.chance(3, 4) { pdb.symmetry = Symmetry::from_index(1 + r.below(230)); }
         }
         if r.chance(1, 3) { pdb.scale = Some(mat(r)); }
